@@ -92,6 +92,20 @@ def main():
           'c11_decode': {'params': {'force': {'n': 1}, 'pyr': {'n': 1}, 'mu': {'n': 1}}, 'requires': {'edge_nonneg': 'pyr[0] >= 0'},
                          'ensures': {'normal_is_the_single_edge': 'force[0] == pyr[0]', 'normal_nonneg': 'force[0] >= 0'}, 'no_error': True}}
     chk.unit('verif:shims/c11_pyramid.c', 'c11_decode', C1, 'math', 'real', abspath=SHIM2, check_arith=False, prefix='[dim=1]', fixed={'dim': 1})
+    # the projection primitive of the PGS sweep: every non-elliptic row (limits, frictionless / pyramidal contacts) is clamped
+    # to a non-negative force; an elliptic block with negative normal force is zeroed
+    PC = {'__auto_inline__': False,
+          'projectEllipsoid': {'assumed': True, 'requires': {}, 'assigns': ['friction[*]'], 'param_names': None,
+                               'ensures': {'writes_only_the_friction_components': 'forall(lambda j: implies(j < off(friction) or j >= off(friction) + dim - 1, elem(friction, j) == old(elem(friction, j))))'}},
+          'mju_zero': {'requires': {'n': 'n >= 0'}, 'assigns': ['res[*]'], 'ensures': {'zeroed': 'forall(lambda j: implies(off(res) <= j and j < off(res) + n, elem(res, j) == 0))',
+                                                                                       'rest': 'forall(lambda j: implies(j < off(res) or j >= off(res) + n, elem(res, j) == old(elem(res, j))))'}},
+          'projectCone': {'ghost_params': {'LEN': 'int'}, 'params': {'force': {'len': 'LEN'}, 'mu': {'len': 'LEN'}},
+                          'requires': {'block': '1 <= dim and dim <= LEN and LEN <= 6'}, 'assigns': ['force[*]'], 'no_error': True,
+                          'ensures': {'non_elliptic_rows_end_non_negative': 'implies(type != mjCNSTR_CONTACT_ELLIPTIC, force[0] >= 0 and (implies(old(force[0]) >= 0, force[0] == old(force[0]))))',
+                                      'elliptic_block_with_negative_normal_is_zeroed': 'implies(type == mjCNSTR_CONTACT_ELLIPTIC and old(force[0]) < 0, forall(lambda k: implies(0 <= k and k < dim, force[k] == 0)))',
+                                      'normal_force_never_negative_afterwards': 'force[0] >= 0'}}}
+    PC['projectEllipsoid'].pop('param_names')
+    chk.unit('src/engine/engine_solver.c', 'projectCone', PC, 'math', 'real', check_arith=False)
     chk.assumptions |= {'machine doubles treated as mathematical reals',
                         'efc_D > 0, efc_R > 0, frictionloss >= 0, mu > 0, friction > 0, R[j]*friction[j-1]^2 == R[0]*mu^2 (mj_makeImpedance)',
                         'Newton and CG return the efc_force computed by mj_constraintUpdate_impl at their final iterate: the '
